@@ -752,4 +752,41 @@ def x3ToNextCeil (cl : α → Int) (ofInt : Int → α) (w le : α) : α := min 
 
 end X3
 
+
+/-! ## 3-D X-ray projector: the four-pixel scatter (`XRayTransform3D._project_single`) -/
+
+section X3Scatter
+variable {α : Type}
+
+/-- detector pixel `(a, b)` of a `(d0, d1)` detector is the flat (row-major) pixel `q`; `False` when `(a, b)` is off the
+    detector — the update is then dropped (`off(i)` sends negative indices past the end, `mode="drop"`) -/
+def onDet (d0 d1 : Nat) (a b : Int) (q : Nat) : Prop :=
+  0 ≤ a ∧ a < d0 ∧ 0 ≤ b ∧ b < d1 ∧ a * d1 + b = q
+
+instance (d0 d1 : Nat) (a b : Int) (q : Nat) : Decidable (onDet d0 d1 a b q) := by unfold onDet; infer_instance
+
+/-- `_project_single` for one view: voxel `p` (value `x p`) has first detector pixel `(I0 p, I1 p)` and first-bin shares
+    `t0 p`, `t1 p` of its footprint of side `w`; four scatter-adds with the weights
+    `t0·t1/w²`, `(w−t0)·t1/w²`, `t0·(w−t1)/w²`, `(w−t0)·(w−t1)/w²` at `(I0, I1)`, `(I0+1, I1)`, `(I0, I1+1)`, `(I0+1, I1+1)` -/
+def xray3Project [Add α] [Sub α] [Mul α] [Div α] [Zero α] [One α] (nv : Nat) (I0 I1 : Nat → Int) (t0 t1 : V α) (w : α)
+    (x : V α) (d0 d1 : Nat) : V α := fun q =>
+  if q < d0 * d1 then
+    sumTo nv (fun p =>
+        (if onDet d0 d1 (I0 p) (I1 p) q then t0 p * t1 p * (1 / (w * w)) * x p else 0)
+      + (if onDet d0 d1 (I0 p + 1) (I1 p) q then (w - t0 p) * t1 p * (1 / (w * w)) * x p else 0)
+      + (if onDet d0 d1 (I0 p) (I1 p + 1) q then t0 p * (w - t1 p) * (1 / (w * w)) * x p else 0)
+      + (if onDet d0 d1 (I0 p + 1) (I1 p + 1) q then (w - t0 p) * (w - t1 p) * (1 / (w * w)) * x p else 0))
+  else 0
+
+/-- share of bin `bin` when a footprint gives `a` to bin `I` and `b` to bin `I + 1` -/
+def binShare [Add α] [Zero α] (I : Int) (a b : α) (bin : Nat) : α :=
+  (if I = (bin : Int) then a else 0) + (if I + 1 = (bin : Int) then b else 0)
+
+/-- documented matrix of a view: pixel `(q / d1, q % d1)` receives the fraction of the footprint SQUARE of voxel `p` that
+    lies in it — the product of the two 1-d fractions (`t/w` in the first bin, `(w − t)/w` in the next) -/
+def xray3Matrix [Add α] [Sub α] [Mul α] [Div α] [Zero α] (I0 I1 : Nat → Int) (t0 t1 : V α) (w : α) (d1 : Nat) : M α :=
+  fun q p => binShare (I0 p) (t0 p / w) ((w - t0 p) / w) (q / d1) * binShare (I1 p) (t1 p / w) ((w - t1 p) / w) (q % d1)
+
+end X3Scatter
+
 end Scico.LinOps
